@@ -69,8 +69,38 @@ impl CacheKey {
 ///
 /// Removes extra whitespace and normalizes case for keywords.
 fn normalize_query(query: &str) -> String {
-    // Simple normalization: collapse whitespace
-    query.split_whitespace().collect::<Vec<_>>().join(" ")
+    // Collapse runs of whitespace to a single space, but never inside a quoted
+    // literal or identifier: 'a  b' and 'a b' are different queries.
+    let mut out = String::with_capacity(query.len());
+    let mut quote: Option<char> = None;
+    let mut escaped = false;
+    let mut pending_space = false;
+    for ch in query.chars() {
+        if let Some(q) = quote {
+            out.push(ch);
+            if escaped {
+                escaped = false;
+            } else if ch == '\\' {
+                escaped = true;
+            } else if ch == q {
+                quote = None;
+            }
+            continue;
+        }
+        if ch.is_whitespace() {
+            pending_space = !out.is_empty();
+            continue;
+        }
+        if pending_space {
+            out.push(' ');
+            pending_space = false;
+        }
+        if ch == '\'' || ch == '"' || ch == '`' {
+            quote = Some(ch);
+        }
+        out.push(ch);
+    }
+    out
 }
 
 /// Entry in the cache with metadata.
